@@ -332,9 +332,14 @@ def _prefix_call(sign):
         from xlcalculator import tokenizer
         f = tokenizer.ExcelParser.getTokens
         node = func_ast(f)
-        loops = [n for n in node.body if isinstance(n, pyast.While)]
-        loop = loops[3]                       # `while (tokens2.moveNext())`: the prefix / noop pass
-        assert pyast.unparse(loop.test).replace(' ', '') == 'tokens2.moveNext()', pyast.unparse(loop.test)
+        # the prefix / noop pass: the top-level loop over `tokens2` whose body assigns the prefix-operator type (anchored by
+        # content, not by position: earlier passes may be rewritten freely)
+        loops = [n for n in node.body if isinstance(n, pyast.While) and pyast.unparse(n.test).replace(' ', '') == 'tokens2.moveNext()'
+                 and 'TOK_TYPE_OP_PRE' in pyast.unparse(n)]
+        if len(loops) != 1:
+            from pyvc.sym import Unsupported
+            raise Unsupported('the prefix pass of getTokens is no longer a `while tokens2.moveNext()` loop: the step contract does not apply')
+        loop = loops[0]
         tokens2 = tokenizer.f_tokens()
         prev = tokenizer.f_token('x', 'operand', '')
         prev.ttype, prev.tsubtype = ptype, psub
